@@ -22,6 +22,7 @@ EXPLANATION = (
     'C11.R3 (table of minimum memory orders, extracted from the order arguments; default = seq_cst). '
     'C11.R4 (spin lock): every return of lock() is behind an acquiring edge (exchange(true) returned false / try_lock() '
     'returned true); try_lock() is false whenever its exchange(true) found the flag set; unlock() is one store(false).')
+EXPLANATION += ' C11.R1 also checks that the rvalue Add never release()s its argument into nothing. C11.R4 also checks that after an acquiring edge no further acquisition attempt is reachable (lock returns once acquired).'
 NOT_DECIDED = 'linearizability, ABA/wrap-around and "queued never exceeds capacity" under interleavings; lock() liveness.'
 
 ORD = {0: 'relaxed', 1: 'consume', 2: 'acquire', 3: 'release', 4: 'acq_rel', 5: 'seq_cst'}
